@@ -43,7 +43,7 @@ M = {
         "            self.inv_gram(state) @ self.jacob_constr(state),\n"),
     "c06_half_step_dropped": (["C06", "C03"], "src/mici/integrators.py",
         "        self._step_a_fwd(state, time_step / 2)\n        self._step_a_adj(state, time_step / 2)\n",
-        "        self._step_a_fwd(state, time_step / 2)\n        self._step_a_adj(state, time_step / 2 if abs(time_step) < 0.05 else time_step / 2.2)\n"),
+        "        self._step_a_fwd(state, time_step / 2)\n        self._step_a_adj(state, time_step / 2 if abs(time_step) > 0.05 else time_step / 2.2)\n"),
     "c07_sin_omega_factor": (["C07"], "src/mici/systems.py",
         "            cos_omega_dt * eigvec_trans_mom - (sin_omega_dt / omega) * eigvec_trans_pos\n",
         "            cos_omega_dt * eigvec_trans_mom - (sin_omega_dt * omega) * eigvec_trans_pos\n"),
